@@ -118,8 +118,17 @@ def _run_shard(args):
         env.update(env_extra or {})
         cmd = java_cmd(os.path.join(VERIF, "trace", module), os.path.join(VERIF, "trace", module + ".cfg"), meta,
                        c1=sum(len(json.dumps(c)) for c in pending) < 400000)
-        p = subprocess.run(cmd, cwd=shard_dir, env=env, stdout=subprocess.PIPE, stderr=subprocess.STDOUT, text=True)
-        out = p.stdout
+        timed_out = False
+        try:
+            p = subprocess.run(cmd, cwd=shard_dir, env=env, stdout=subprocess.PIPE, stderr=subprocess.STDOUT, text=True,
+                               timeout=int(os.environ.get("VERIF_TLC_TIMEOUT", "1500")))
+            out = p.stdout
+        except subprocess.TimeoutExpired as e:
+            # one case is pathologically expensive for the spec (seen with files a changed library filled with garbage): it is set
+            # aside like a case TLC fails on, the rest of the shard is judged
+            out = e.stdout if isinstance(e.stdout, str) else (e.stdout or b"").decode("utf-8", "replace")
+            out += "\nError: timeout while judging the case in progress\n"
+            timed_out = True
         logs.append(out)
         shutil.rmtree(meta, ignore_errors=True)
         shutil.rmtree(os.path.join(shard_dir, "jtmp"), ignore_errors=True)
